@@ -88,7 +88,8 @@ class PidHashed:
 
 
 def gen_case(rng, i):
-    fam = ["self_loop", "two_cycle", "long_cycle", "off_path", "random_back", "random_back", "typed", "acyclic_rewire"][i % 8]
+    fam = ["self_loop", "two_cycle", "long_cycle", "off_path", "random_back", "random_back", "typed", "acyclic_rewire",
+           "waiter_before_cycle"][i % 9]
     if fam == "typed":
         nodes = [{"name": "A", "kind": "FT", "inputs": {"a": ["lit", "x"]}},
                  {"name": "B", "kind": "FT", "inputs": {"a": ["node", "A"]}},
@@ -122,6 +123,26 @@ def gen_case(rng, i):
             spec["nodes"][1].pop("split")
             spec["nodes"][1].pop("comb", None)
         back = [[names[0], f(), names[1]]]
+    elif fam == "waiter_before_cycle":
+        # a node added *before* the members of a cycle waits for it (two back-assignments): whatever reports the
+        # cycle starts from a node that is not on it
+        while len(names) < 3:
+            spec = c03.gen_spec(rng, nmax=rng.choice([3, 4, 5]), p_comb=0.1)
+            names = [n["name"] for n in spec["nodes"]]
+        i0 = rng.randrange(1, len(names) - 1)
+        nd = spec["nodes"][i0 + 1]
+        nd["inputs"]["a"] = ["node", names[i0]]
+        if "a" in (nd.get("split") or {}).get("vals", {}):
+            nd.pop("split")
+            nd.pop("comb", None)
+        pj = 0 if rng.random() < 0.7 else rng.randrange(0, i0)
+        pf = f()
+        if pf in (spec["nodes"][pj].get("split") or {}).get("vals", {}):
+            spec["nodes"][pj].pop("split")
+            spec["nodes"][pj].pop("comb", None)
+        back = [[names[i0], f(), names[i0 + 1]], [names[pj], pf, names[rng.choice([i0, i0 + 1])]]]
+        if rng.random() < 0.3:
+            back.append([names[0], f(), names[0]])
     elif fam == "acyclic_rewire":
         # re-point an input of a later node at an earlier node: stays acyclic
         j = rng.randrange(1, len(names))
@@ -246,7 +267,7 @@ def run(ctx):
     rng = ctx.rng("gen")
     cases = [gen_case(rng, i) for i in range(64 if quick else 1500)]
     cases += [{"family": "cannot_progress", "v": i} for i in range(2 if quick else 6)]
-    ctx.rule = ("C03 graphs + back-assignments (self-loop, 2-cycle, long cycle, cycle off the output path, random, typed nodes, "
+    ctx.rule = ("C03 graphs + back-assignments (self-loop, 2-cycle, long cycle, cycle off the output path, an earlier node waiting for a cycle, random, typed nodes, "
                 "acyclic re-wiring) under debug and cf, plus unstable-hash inputs under cf; every case is non-trivial; "
                 "distinct = distinct case spec")
     ctx.record_all(ctx.pmap("vp.props.c18:case_one", cases, nproc=12, timeout=900 if quick else 3300))
